@@ -23,7 +23,7 @@
 # -----------------------------------------------------------------------------
 import time
 from binascii import hexlify
-from struct import pack, unpack
+from struct import pack
 
 from . import Tag, TagCommandError
 import nfc.clf
@@ -66,10 +66,12 @@ def read_tlv(memory, offset, skip_bytes):
     if tlv_t in (0x00, 0xFE):
         return (tlv_t, -1, None)
 
-    tlv_l, offset = (memory[offset], offset+1)
+    # The length field bytes do not occupy reserved memory.
+    field = get_tlv_length_field(memory, offset - 1, skip_bytes)
+    tlv_l, offset = (memory[field[0]], field[-1] + 1)
 
     if tlv_l == 0xFF:
-        tlv_l, offset = (unpack(">H", memory[offset:offset+2])[0], offset+2)
+        tlv_l = memory[field[1]] << 8 | memory[field[2]]
 
     tlv_v = bytearray(tlv_l)
     for i in range(tlv_l):
@@ -78,6 +80,21 @@ def read_tlv(memory, offset, skip_bytes):
         tlv_v[i] = memory[offset+i]
 
     return (tlv_t, tlv_l, tlv_v)
+
+
+def get_tlv_length_field(memory, offset, skip_bytes, size=None):
+    # Return the addresses of the length field bytes for the TLV that
+    # starts at offset. Reserved and lock bytes are not part of the
+    # TLV data and are skipped. The length field format (one or three
+    # bytes) is determined by the first byte unless size is given.
+    field = []
+    while size is None or len(field) < size:
+        offset += 1
+        if offset not in skip_bytes:
+            field.append(offset)
+            if size is None:
+                size = 3 if memory[offset] == 0xFF else 1
+    return field
 
 
 def get_lock_byte_range(data):
@@ -180,6 +197,9 @@ class Type1Tag(Tag):
                 try:
                     tlv = read_tlv(tag_memory, offset, skip_bytes)
                     tlv_t, tlv_l, tlv_v = tlv
+                    if tlv_t not in (None, 0x00, 0xFE):
+                        head = get_tlv_length_field(
+                            tag_memory, offset, skip_bytes)[-1] + 1
                 except (Type1TagCommandError, ValueError):
                     log.debug("tlv at address {0} is unreadable".format(offset))
                     return None
@@ -201,9 +221,8 @@ class Type1Tag(Tag):
                         log.debug("memory tlv has wrong length")
                 elif tlv_t == 0x03:
                     # the value bytes must fit into the data area
-                    head = 4 if tag_memory[offset+1] == 0xFF else 2
-                    room = set(range(offset + head, tag_memory_size))
-                    if ((offset + head > tag_memory_size
+                    room = set(range(head, tag_memory_size))
+                    if ((head > tag_memory_size
                          or tlv_l > len(room - skip_bytes))):
                         log.debug("ndef message tlv exceeds the data area")
                         return None
@@ -221,7 +240,7 @@ class Type1Tag(Tag):
                 if tlv_l < 0:
                     offset += 1
                 else:
-                    offset += 4 if tag_memory[offset+1] == 0xFF else 2
+                    offset = head
                     for i in range(tlv_l):
                         while offset in skip_bytes:
                             offset += 1
@@ -245,14 +264,18 @@ class Type1Tag(Tag):
             offset = self._ndef_tlv_offset
             tag_memory_size = (tag_memory[10] + 1) * 8
 
+            # The length byte(s) do not occupy reserved memory.
+            field = get_tlv_length_field(
+                tag_memory, offset, skip_bytes, 1 if len(data) < 255 else 3)
+
             # Set the ndef message tlv length to 0.
-            tag_memory[offset+1] = 0
+            tag_memory[field[0]] = 0
             tag_memory.synchronize()
 
             # Leave room for ndef message length byte(s) and write
             # ndef data into the memory image, but jump over skip
             # bytes.
-            offset += 2 if len(data) < 255 else 4
+            offset = field[-1] + 1
             for i in range(len(data)):
                 while offset + i in skip_bytes:
                     offset += 1
@@ -269,12 +292,12 @@ class Type1Tag(Tag):
             tag_memory.synchronize()
 
             # Write the ndef message tlv length.
-            offset = self._ndef_tlv_offset
             if len(data) < 255:
-                tag_memory[offset+1] = len(data)
+                tag_memory[field[0]] = len(data)
             else:
-                tag_memory[offset+1] = 0xFF
-                tag_memory[offset+2:offset+4] = pack(">H", len(data))
+                tag_memory[field[0]] = 0xFF
+                tag_memory[field[1]], tag_memory[field[2]] = \
+                    pack(">H", len(data))
             tag_memory.synchronize()
 
     #
